@@ -108,7 +108,7 @@ import "berty.tech/go-ipfs-log/iface"
 //@ define idxComplete(l *IPFSLog) = forall k string, j int :: has(ent(l), k) && 0 <= j && j < len(ent(l)[k].Next) ==> has(idx(l), str(ent(l)[k].Next[j]))
 //@ define idxSound(l *IPFSLog) = forall n string :: has(idx(l), n) ==> validEntry(idx(l)[n]) && has(ent(l), ehash(idx(l)[n])) && ent(l)[ehash(idx(l)[n])] == idx(l)[n] && names(idx(l)[n], n)
 // heads are entries; no head is recorded as referenced; every entry not recorded as referenced is a head
-//@ define headsIn(l *IPFSLog) = forall k string :: has(hds(l), k) ==> has(ent(l), k) && ent(l)[k] == hds(l)[k]
+//@ define headsIn(l *IPFSLog) = forall k string :: has(hds(l), k) ==> has(ent(l), k) && sameCids(hds(l)[k].Next, ent(l)[k].Next)
 //@ define headsUnref(l *IPFSLog) = forall k string :: has(hds(l), k) ==> !has(idx(l), k)
 //@ define headsAll(l *IPFSLog) = forall k string :: has(ent(l), k) && !has(idx(l), k) ==> has(hds(l), k)
 // predecessor-closed, hash links ranked (acyclic), one log id
@@ -117,7 +117,7 @@ import "berty.tech/go-ipfs-log/iface"
 //@ define oneLogID(l *IPFSLog) = forall k string :: has(ent(l), k) ==> ent(l)[k].LogID == l.ID
 //@ define wfLog(l *IPFSLog) = idxComplete(l) && idxSound(l) && headsIn(l) && headsUnref(l) && headsAll(l) && closedLog(l) && rankedLog(l) && oneLogID(l)
 // the property itself (C02), stated over the predecessor lists and not over the index
-//@ define headsExact(l *IPFSLog) = (forall k string :: has(hds(l), k) ==> has(ent(l), k) && ent(l)[k] == hds(l)[k] && notNamedIn(l.Entries, k)) && (forall k string :: has(ent(l), k) ==> has(hds(l), k) || namedIn(l.Entries, k))
+//@ define headsExact(l *IPFSLog) = (forall k string :: has(hds(l), k) ==> has(ent(l), k) && notNamedIn(l.Entries, k)) && (forall k string :: has(ent(l), k) ==> has(hds(l), k) || namedIn(l.Entries, k))
 
 // ---- Append (C04, C02, C05, C06-denial) ----
 //@ define headHashIn(l *IPFSLog, k string) = has(om(l.heads).values, k)
@@ -141,7 +141,16 @@ import "berty.tech/go-ipfs-log/iface"
 //@   ensures [skip-references-are-not-predecessors] err == nil ==> forall i int, j int :: 0 <= i && i < len(result0.Refs) && 0 <= j && j < len(result0.Next) ==> result0.Refs[i] != result0.Next[j]
 //@   ensures [skip-references-are-entries-of-the-log] err == nil ==> forall i int, k string :: 0 <= i && i < len(result0.Refs) && k == str(result0.Refs[i]) ==> old(has(om(l.Entries).values, k)) || old(has(om(l.heads).values, k))
 //@ @wf requires wfLog(l)
+//@ @wf assert "l.Entries.Set(e.GetHash().String(), e)" [new-entry-links-are-old-heads] forall j int, k string :: 0 <= j && j < len(e.Next) && k == str(e.Next[j]) ==> old(has(hds(l), k))
+//@ @wf assert "l.Entries.Set(e.GetHash().String(), e)" [old-heads-were-not-indexed] forall j int, k string :: 0 <= j && j < len(e.Next) && k == str(e.Next[j]) ==> !old(has(idx(l), k))
+//@ @wf assert "l.Entries.Set(e.GetHash().String(), e)" [an-old-entry-with-the-new-hash-has-the-new-links] forall k string :: old(has(ent(l), k)) && k == ehash(e) ==> sameCids(old(ent(l)[k]).Next, e.Next)
 //@ @wf assert "l.Entries.Set(e.GetHash().String(), e)" [no-indexed-entry-has-the-new-hash] forall n string :: old(has(idx(l), n)) ==> ehash(old(idx(l)[n])) != ehash(e)
+//@ @wf assert "l.Entries.Set(e.GetHash().String(), e)" [new-entry-names-its-links] forall i int :: 0 <= i && i < len(next) ==> names(e, str(next[i]))
+//@ @wf assert "l.Entries.Set(e.GetHash().String(), e)" [new-entry-links-rank-below-it] forall j int :: 0 <= j && j < len(e.Next) ==> rank(str(e.Next[j])) < rank(ehash(e))
+//@ @wf assert "l.Entries.Set(e.GetHash().String(), e)" [entries-are-old-or-the-new-entry] forall k string :: has(ent(l), k) ==> (k == ehash(e) && ent(l)[k] == e) || (old(has(ent(l), k)) && ent(l)[k] == old(ent(l)[k]))
+//@ @wf assert "l.Entries.Set(e.GetHash().String(), e)" [ranked-after-insertion] rankedLog(l)
+//@ @wf assert "l.heads = entry.NewOrderedMapFromEntries([]iface.IPFSLogEntry{e})" [index-records-point-to-entries] forall n string :: has(idx(l), n) ==> validEntry(idx(l)[n]) && has(ent(l), ehash(idx(l)[n])) && ent(l)[ehash(idx(l)[n])] == idx(l)[n]
+//@ @wf assert "l.heads = entry.NewOrderedMapFromEntries([]iface.IPFSLogEntry{e})" [index-records-name-their-key] forall n string :: has(idx(l), n) ==> names(idx(l)[n], n)
 //@ @wf assert "l.heads = entry.NewOrderedMapFromEntries([]iface.IPFSLogEntry{e})" [old-heads-are-now-referenced] forall k string :: old(has(hds(l), k)) ==> has(idx(l), k)
 //@ @wf assert "l.heads = entry.NewOrderedMapFromEntries([]iface.IPFSLogEntry{e})" [no-other-record-has-the-new-hash] forall n string :: has(idx(l), n) ==> ehash(idx(l)[n]) != ehash(e) || idx(l)[n] == e
 //@ @wf ensures [append-keeps-the-reverse-index-complete] idxComplete(l)
@@ -318,8 +327,10 @@ import "berty.tech/go-ipfs-log/iface"
 //@ define diffSeeds(A iface.IPFSLogOrderedEntries, hs []iface.IPFSLogEntry, B *IPFSLog, res iface.IPFSLogOrderedEntries) = forall i int :: 0 <= i && i < len(hs) ==> has(omv(res), ehash(hs[i])) || !has(omv(A), ehash(hs[i])) || has(ent(B), ehash(hs[i])) || omv(A)[ehash(hs[i])].LogID != B.ID
 // diffDown: every predecessor of a collected entry is in the log already, collected too, or not available in the source
 //@ define diffDown(A iface.IPFSLogOrderedEntries, B *IPFSLog, res iface.IPFSLogOrderedEntries) = forall k string, j int :: has(omv(res), k) && 0 <= j && j < len(omv(res)[k].Next) ==> has(ent(B), str(omv(res)[k].Next[j])) || has(omv(res), str(omv(res)[k].Next[j])) || !has(omv(A), str(omv(res)[k].Next[j])) || omv(A)[str(omv(res)[k].Next[j])].LogID != B.ID
-// connectedUp: every source entry is a source head or is named by a source entry of higher rank (heads exactness of the source)
-//@ define connectedUp(A iface.IPFSLogOrderedEntries, hs []iface.IPFSLogEntry) = forall x string :: has(omv(A), x) ==> (exists i int :: 0 <= i && i < len(hs) && ehash(hs[i]) == x) || (exists p string, j int :: has(omv(A), p) && 0 <= j && j < len(omv(A)[p].Next) && str(omv(A)[p].Next[j]) == x && rank(p) > rank(x))
+// connectedUp: every source entry is a source head or is named by a source entry of higher rank (heads exactness of the
+// source); headsCover: the head slice handed to the walk lists every head of the heads map
+//@ define connectedUp(A iface.IPFSLogOrderedEntries, H iface.IPFSLogOrderedEntries) = forall x string :: has(omv(A), x) ==> has(omv(H), x) || (exists p string, j int :: has(omv(A), p) && 0 <= j && j < len(omv(A)[p].Next) && str(omv(A)[p].Next[j]) == x && rank(p) > rank(x))
+//@ define headsCover(hs []iface.IPFSLogEntry, H iface.IPFSLogOrderedEntries) = forall k string :: has(omv(H), k) ==> exists i int :: 0 <= i && i < len(hs) && hs[i] != nil && ehash(hs[i]) == k
 // sameLinks: the two logs hold the same predecessor list for the same hash (content addressing); oneID: one log id
 //@ define sameLinks(A iface.IPFSLogOrderedEntries, B *IPFSLog) = forall k string :: has(omv(A), k) && has(ent(B), k) ==> sameCids(omv(A)[k].Next, ent(B)[k].Next)
 //@ define oneID(A iface.IPFSLogOrderedEntries, id string) = forall k string :: has(omv(A), k) ==> omv(A)[k].LogID == id
@@ -333,10 +344,20 @@ import "berty.tech/go-ipfs-log/iface"
 //@   induction x by rankMax() - rank(x)
 //@   requires validEntries(entriesA) && validEntries(res) && logB != nil && validEntries(logB.Entries)
 //@   requires subMap(res, entriesA) && diffSeeds(entriesA, headsA, logB, res) && diffDown(entriesA, logB, res)
-//@   requires connectedUp(entriesA, headsA) && closedLog(logB) && sameLinks(entriesA, logB) && oneID(entriesA, logB.ID)
+//@   requires isOM(H) && headsCover(headsA, H) && connectedUp(entriesA, H) && closedLog(logB) && sameLinks(entriesA, logB) && oneID(entriesA, logB.ID)
 //@   requires has(omv(entriesA), x) && !has(ent(logB), x)
 //@   ensures [every-missing-source-entry-is-collected] has(omv(res), x)
-func verifLemmaDifferenceComplete(entriesA iface.IPFSLogOrderedEntries, headsA []iface.IPFSLogEntry, logB *IPFSLog, res iface.IPFSLogOrderedEntries, x string) {
+func verifLemmaDifferenceComplete(entriesA iface.IPFSLogOrderedEntries, headsA []iface.IPFSLogEntry, logB *IPFSLog, res iface.IPFSLogOrderedEntries, H iface.IPFSLogOrderedEntries, x string) {
+}
+
+// A well-formed log seen through a copy of its entry index: every entry is a head or hangs from a higher-ranked entry.
+//@ define sameContent(A iface.IPFSLogOrderedEntries, B iface.IPFSLogOrderedEntries) = forall k string :: has(omv(A), k) == has(omv(B), k) && (has(omv(B), k) ==> omv(A)[k] == omv(B)[k])
+//@ func verifLemmaSourceConnected
+//@   lemma
+//@   requires o != nil && validEntries(o.Entries) && validEntries(o.heads) && isOM(o.Next) && wfLog(o)
+//@   requires validEntries(A) && sameContent(A, o.Entries)
+//@   ensures [entries-of-a-well-formed-log-hang-from-its-heads] connectedUp(A, o.heads)
+func verifLemmaSourceConnected(o *IPFSLog, A iface.IPFSLogOrderedEntries) {
 }
 
 //@ func difference
@@ -348,8 +369,8 @@ func verifLemmaDifferenceComplete(entriesA iface.IPFSLogOrderedEntries, headsA [
 //@   ensures logB == nil ==> len(om(result).keys) == 0
 //@ @wf ensures [difference-collects-new-source-heads] logB != nil ==> diffSeeds(entriesA, headsA, logB, result)
 //@ @wf ensures [difference-follows-every-available-predecessor] logB != nil ==> diffDown(entriesA, logB, result)
-//@ @wf uselemma verifLemmaDifferenceComplete(entriesA, headsA, logB, result, _)
-//@ @wf ensures [difference-is-complete] logB != nil && connectedUp(entriesA, headsA) && closedLog(logB) && sameLinks(entriesA, logB) && oneID(entriesA, logB.ID) ==> forall x string :: has(omv(entriesA), x) && !has(ent(logB), x) ==> has(omv(result), x)
+//@ @wf uselemma verifLemmaDifferenceComplete(entriesA, headsA, logB, result, _, _)
+//@ @wf ensures [difference-is-complete] forall H iface.IPFSLogOrderedEntries :: logB != nil && isOM(H) && headsCover(headsA, H) && connectedUp(entriesA, H) && closedLog(logB) && sameLinks(entriesA, logB) && oneID(entriesA, logB.ID) ==> forall x string :: has(omv(entriesA), x) && !has(ent(logB), x) ==> has(omv(result), x)
 //@   lockensures held[om(result).lock] == 0
 //@   loop 0
 //@     invariant fresh(stack) && off(stack) == 0 && len(stack) == len(headsA)
@@ -425,6 +446,33 @@ func verifLemmaDifferenceComplete(entriesA iface.IPFSLogOrderedEntries, headsA [
 //@   ensures [failed-join-changes-nothing] err != nil && l != nil ==> l.heads == old(l.heads) && l.Entries == old(l.Entries) && l.Next == old(l.Next) && l.Clock == old(l.Clock) && om(l.Entries).keys == old(om(l.Entries).keys) && om(l.Next).keys == old(om(l.Next).keys) && (forall k string :: has(om(l.Entries).values, k) == old(has(om(l.Entries).values, k)) && om(l.Entries).values[k] == old(om(l.Entries).values[k]) && has(om(l.Next).values, k) == old(has(om(l.Next).values, k)) && om(l.Next).values[k] == old(om(l.Next).values[k]))
 //@   ensures [join-admits-only-verified-authorised-entries-of-this-log] err == nil && size < 0 && l != nil ==> forall k string :: has(om(l.Entries).values, k) && !old(has(om(l.Entries).values, k)) ==> sigOK(ref(om(l.Entries).values[k])) && allowed(l.AccessController, om(l.Entries).values[k]) && om(l.Entries).values[k].LogID == l.ID
 //@   ensures [join-keeps-every-entry] err == nil && size < 0 && l != nil ==> forall k string :: old(has(om(l.Entries).values, k)) ==> has(om(l.Entries).values, k) && om(l.Entries).values[k] == old(om(l.Entries).values[k])
+// ---- C01/C02 (facet wf): an unbounded merge of two well-formed logs of one id is the union, and is well-formed ----
+//@ @wf requires l != nil ==> wfLog(l)
+//@ @wf requires l != nil && otherLog != nil && otherLog.(*IPFSLog) != l ==> wfLog(otherLog.(*IPFSLog)) && sameLinks(otherLog.(*IPFSLog).Entries, l)
+//@ @wf uselemma "otherEntries := otherLog.GetEntries()" verifLemmaSourceConnected(otherLog.(*IPFSLog), otherEntries)
+//@ @wf assert "newItems := difference(" [difference-collected-every-missing-source-entry] forall x string :: has(omv(otherEntries), x) && !has(ent(l), x) ==> has(omv(newItems), x)
+//@ @wf assert "newItems := difference(" [collected-entries-keep-the-log-closed] forall k string, j int :: has(omv(newItems), k) && 0 <= j && j < len(omv(newItems)[k].Next) ==> has(ent(l), str(omv(newItems)[k].Next[j])) || has(omv(newItems), str(omv(newItems)[k].Next[j]))
+//@ @wf assert "nextsFromNewItems := map[string]struct{}{}" [entries-are-the-union] forall k string :: has(ent(l), k) <==> old(has(ent(l), k)) || has(omv(newItems), k)
+//@ @wf assert "nextsFromNewItems := map[string]struct{}{}" [index-complete-after-insertion] idxComplete(l)
+//@ @wf assert "nextsFromNewItems := map[string]struct{}{}" [index-sound-after-insertion] idxSound(l)
+//@ @wf assert "nextsFromNewItems := map[string]struct{}{}" [closed-after-insertion] closedLog(l)
+//@ @wf assert "nextsFromNewItems := map[string]struct{}{}" [ranked-after-insertion] rankedLog(l)
+//@ @wf assert "nextsFromNewItems := map[string]struct{}{}" [one-log-id-after-insertion] oneLogID(l)
+//@ @wf assert "nextsFromNewItems := map[string]struct{}{}" [unreferenced-old-entries-are-old-heads] forall k string :: old(has(ent(l), k)) && !has(idx(l), k) ==> has(hds(l), k)
+//@ @wf assert "nextsFromNewItems := map[string]struct{}{}" [unreferenced-new-entries-are-source-heads] forall k string :: has(omv(newItems), k) && !has(idx(l), k) ==> has(omv(otherHeads), k)
+//@ @wf assert "nextsFromNewItems := map[string]struct{}{}" [links-of-old-heads-are-recorded] forall k string, j int :: has(hds(l), k) && 0 <= j && j < len(hds(l)[k].Next) ==> has(idx(l), str(hds(l)[k].Next[j]))
+//@ @wf assert "nextsFromNewItems := map[string]struct{}{}" [source-heads-are-entries-now] forall k string :: has(omv(otherHeads), k) ==> has(ent(l), k) && sameCids(omv(otherHeads)[k].Next, ent(l)[k].Next)
+//@ @wf assert "nextsFromNewItems := map[string]struct{}{}" [links-of-source-heads-are-recorded] forall k string, j int :: has(omv(otherHeads), k) && 0 <= j && j < len(omv(otherHeads)[k].Next) ==> has(idx(l), str(omv(otherHeads)[k].Next[j]))
+//@ @wf assert "mergedHeads := entry.FindHeads(l.heads.Merge(otherHeads))" [merged-heads-are-entries] forall i int :: 0 <= i && i < len(mergedHeads) ==> validEntry(mergedHeads[i]) && has(ent(l), ehash(mergedHeads[i])) && sameCids(mergedHeads[i].Next, ent(l)[ehash(mergedHeads[i])].Next)
+//@ @wf assert "mergedHeads := entry.FindHeads(l.heads.Merge(otherHeads))" [unreferenced-old-or-source-heads-are-merged-heads] forall k string :: has(hds(l), k) || has(omv(otherHeads), k) ==> (exists r int :: 0 <= r && r < len(mergedHeads) && mergedHeads[r] != nil && ehash(mergedHeads[r]) == k) || has(idx(l), k)
+//@ @wf ensures [merge-preserves-the-reverse-index] err == nil && size < 0 && l != nil ==> idxComplete(l) && idxSound(l)
+//@ @wf ensures [merge-preserves-closure-ranks-and-log-id] err == nil && size < 0 && l != nil ==> closedLog(l) && rankedLog(l) && oneLogID(l)
+//@ @wf ensures [merged-heads-are-entries] err == nil && size < 0 && l != nil ==> headsIn(l)
+//@ @wf ensures [merged-heads-are-unreferenced] err == nil && size < 0 && l != nil ==> headsUnref(l)
+//@ @wf ensures [every-unreferenced-entry-is-a-merged-head] err == nil && size < 0 && l != nil ==> headsAll(l)
+//@ @wf ensures [heads-are-exactly-the-unreferenced-entries] err == nil && size < 0 && l != nil ==> headsExact(l)
+//@ @wf ensures [merge-result-is-the-union-of-both-entry-sets] err == nil && size < 0 && l != nil && otherLog != nil && otherLog.(*IPFSLog) != l && l.ID == otherLog.(*IPFSLog).ID ==> forall k string :: has(ent(l), k) <==> old(has(ent(l), k)) || old(has(ent(otherLog.(*IPFSLog)), k))
+//@ @wf ensures [merge-with-itself-or-another-log-id-changes-nothing] err == nil && l != nil && otherLog != nil && (otherLog.(*IPFSLog) == l || l.ID != otherLog.(*IPFSLog).ID) ==> l.heads == old(l.heads) && l.Entries == old(l.Entries) && (forall k string :: has(ent(l), k) == old(has(ent(l), k)) && has(hds(l), k) == old(has(hds(l), k)))
 //@   replay joinsize
 //@   loop 0
 //@     invariant validEntries(newItems) && fresh(newItems)
@@ -436,6 +484,10 @@ func verifLemmaDifferenceComplete(entriesA iface.IPFSLogOrderedEntries, headsA [
 //@     invariant forall k string :: has(om(newItems).values, k) ==> stored[om(newItems).values[k].Hash]
 //@     invariant forall k string :: has(om(l.Entries).values, k) ==> (old(has(om(l.Entries).values, k)) && om(l.Entries).values[k] == old(om(l.Entries).values[k])) || (has(om(newItems).values, k) && om(l.Entries).values[k] == om(newItems).values[k])
 //@     invariant forall k string :: old(has(om(l.Entries).values, k)) ==> has(om(l.Entries).values, k) && om(l.Entries).values[k] == old(om(l.Entries).values[k])
+//@ @wf invariant [inserted-so-far] forall i int :: 0 <= i && i < $k ==> has(ent(l), $r[i])
+//@ @wf invariant [index-records-are-old-or-links-of-new-entries] forall n string :: has(idx(l), n) ==> (old(has(idx(l), n)) && idx(l)[n] == old(idx(l)[n])) || (validEntry(idx(l)[n]) && has(omv(newItems), ehash(idx(l)[n])) && omv(newItems)[ehash(idx(l)[n])] == idx(l)[n] && names(idx(l)[n], n))
+//@ @wf invariant [index-keeps-old-records] forall n string :: old(has(idx(l), n)) ==> has(idx(l), n)
+//@ @wf invariant [links-of-inserted-entries-are-recorded] forall i int, j int :: 0 <= i && i < $k && 0 <= j && j < len(omv(newItems)[$r[i]].Next) ==> has(idx(l), str(omv(newItems)[$r[i]].Next[j]))
 //@     loopmodifies om(l.Next).keys, mapof(om(l.Next).values), om(l.Entries).keys, mapof(om(l.Entries).values)
 //@   loop 2
 //@     invariant validEntries(newItems) && fresh(newItems) && fresh(om(newItems).values) && freshKeys(om(newItems))
@@ -443,16 +495,28 @@ func verifLemmaDifferenceComplete(entriesA iface.IPFSLogOrderedEntries, headsA [
 //@     invariant forall k string :: has(om(newItems).values, k) ==> stored[om(newItems).values[k].Hash]
 //@     invariant forall k string :: has(om(l.Entries).values, k) ==> (old(has(om(l.Entries).values, k)) && om(l.Entries).values[k] == old(om(l.Entries).values[k])) || (has(om(newItems).values, k) && om(l.Entries).values[k] == om(newItems).values[k])
 //@     invariant forall k string :: old(has(om(l.Entries).values, k)) ==> has(om(l.Entries).values, k) && om(l.Entries).values[k] == old(om(l.Entries).values[k])
+//@ @wf invariant has(omv(newItems), k) && e == omv(newItems)[k] && k == $r1[$k1]
+//@ @wf invariant [inserted-so-far] forall i int :: 0 <= i && i < $k1 ==> has(ent(l), $r1[i])
+//@ @wf invariant [index-records-are-old-or-links-of-new-entries] forall n string :: has(idx(l), n) ==> (old(has(idx(l), n)) && idx(l)[n] == old(idx(l)[n])) || (validEntry(idx(l)[n]) && has(omv(newItems), ehash(idx(l)[n])) && omv(newItems)[ehash(idx(l)[n])] == idx(l)[n] && names(idx(l)[n], n))
+//@ @wf invariant [index-keeps-old-records] forall n string :: old(has(idx(l), n)) ==> has(idx(l), n)
+//@ @wf invariant [links-of-inserted-entries-are-recorded] forall i int, j int :: 0 <= i && i < $k1 && 0 <= j && j < len(omv(newItems)[$r1[i]].Next) ==> has(idx(l), str(omv(newItems)[$r1[i]].Next[j]))
+//@ @wf invariant [seen-links-of-the-current-entry-are-recorded] forall j int :: 0 <= j && j < $k ==> has(idx(l), str(e.Next[j]))
 //@     loopmodifies om(l.Next).keys, mapof(om(l.Next).values), om(l.Entries).keys, mapof(om(l.Entries).values)
 //@   loop 3
 //@     invariant fresh(nextsFromNewItems)
+//@ @wf invariant [new-item-links-are-indexed] forall n string :: has(nextsFromNewItems, n) ==> has(idx(l), n)
 //@   loop 4
 //@     invariant fresh(nextsFromNewItems) && validEntry(e)
+//@ @wf invariant has(omv(newItems), k) && e == omv(newItems)[k]
+//@ @wf invariant [new-item-links-are-indexed] forall n string :: has(nextsFromNewItems, n) ==> has(idx(l), n)
 //@   loop 5
 //@     invariant mergedHeads == nil || fresh(mergedHeads)
 //@     invariant forall i int :: 0 <= i && i < $k ==> mergedHeads[i] == nil || validEntry(mergedHeads[i])
 //@     invariant forall i int :: $k <= i && i < len(mergedHeads) ==> validEntry(mergedHeads[i])
 //@     invariant forall i int :: 0 <= i && i < len(mergedHeads) && mergedHeads[i] != nil ==> stored[mergedHeads[i].Hash]
+//@ @wf invariant [merged-heads-are-entries] forall i int :: 0 <= i && i < len(mergedHeads) && mergedHeads[i] != nil ==> has(ent(l), ehash(mergedHeads[i])) && sameCids(mergedHeads[i].Next, ent(l)[ehash(mergedHeads[i])].Next)
+//@ @wf invariant [filtered-heads-are-unreferenced] forall i int :: 0 <= i && i < $k && mergedHeads[i] != nil ==> !has(idx(l), ehash(mergedHeads[i]))
+//@ @wf invariant [unreferenced-old-or-source-heads-are-merged-heads] forall k string :: has(hds(l), k) || has(omv(otherHeads), k) ==> (exists r int :: 0 <= r && r < len(mergedHeads) && mergedHeads[r] != nil && ehash(mergedHeads[r]) == k) || has(idx(l), k)
 //@     loopfresh
 
 // ---- log_io.go (C10, C09): loaders ----
